@@ -139,8 +139,9 @@ AEnter ==
          \* as coded, depth_first_search remembers the number of the reference it followed, not the object reached
          key == IF trav = "pagetree" THEN res.first ELSE t
          container == V(t).k = "node"
-     IN IF trav = "xrefchain" /\ ~container
-          THEN /\ status' = "family" /\ UNCHANGED <<stack, visited>>          \* not a cross-reference section: PDFNoValidXRef
+     IN IF (trav = "xrefchain" /\ ~container) \/ (trav = "nametree" /\ t = 0)
+          \* not a cross-reference section: PDFNoValidXRef; lookup_name on a missing kid: PDFKeyError ends the lookup
+          THEN /\ status' = "family" /\ UNCHANGED <<stack, visited>>
           ELSE IF ~container
             THEN UNCHANGED <<stack, visited, status>>                        \* leaf / missing: lenient default, return
             ELSE IF Guarded(trav) /\ key \in visited
